@@ -3,13 +3,15 @@
 // exact rational type Q.  Needs the add-only hook repo_patches/hook_sched_access.patch (friend ::amgcl_verif::access).
 //
 // Ops (the same text is fed to the Lean model, Amgcl/Driver/Schedule.lean):
-//   sched_gs  variant fwd nt A rhs x     tables of parallel_sweep<fwd> built with nt threads + x after the sweep
-//                                        variant 0 = tree with fix_gs_parallel_levels.patch, 1 = unpatched level loop
+//   sched_gs  fwd nt A rhs x             tables of parallel_sweep<fwd> built with nt threads + x after the sweep
+//   sched_gs_asis fwd nt A rhs x         the same op; the model side uses the level loop of the UNPATCHED tree.  Only
+//                                        generated when the tree under test still has that loop (probe_variant), to tie
+//                                        the as-is model (counterexample theorems) to the as-is code
 //   sched_ilu lower nt A D x             tables of sptr_solve<lower> + x after solve (A strictly triangular)
 //   gs_apply  nt which A rhs x           gauss_seidel<builtin<Q>> object: which = 0 apply_pre, 1 apply_post, 2 apply
 //   ilu_solve nt L U D x                 ilu_solve<builtin<Q>> object (lower then upper solve)
 //   ilu0_threads nt A f                  ilu0<builtin<Q>>::apply with nt threads vs 1 thread: "same" | "differs"
-//   sched_exh variant fwd nt n lo hi     all n x n patterns with full diagonal, off-diagonal bit masks lo..hi-1:
+//   sched_exh[_asis] fwd nt n lo hi      all n x n patterns with full diagonal, off-diagonal bit masks lo..hi-1:
 //                                        "<#patterns with an intra-level conflict> <checksum of the level vectors>"
 //   sched_exh_ilu lower nt n lo hi       the same for strictly triangular patterns
 //   sched_gershgorin scale nt A          spectral_radius<scale>(A, 0) with nt threads
@@ -237,8 +239,9 @@ template <bool fwd> static Result do_sched_gs(long variant, long nt, const Mat &
     if (!eqv(a3, ref)) r.fail(pre + "dumped schedule executed in thread order " + sched_str(T, s3) + " differs from the serial sweep; " + why);
     if (conflict) {
         // do not race on GMP numbers: reproduce with real threads in double instead
-        int d = stress_double<fwd>(A, rhs, x0, 200);
-        std::string st = "; real threads, double: " + std::to_string(d) + "/200 runs differ from the serial sweep";
+        static int stress_runs = 0;      // a handful of real-thread reproductions per process is enough
+        std::string st;
+        if (stress_runs++ < 6) { int d = stress_double<fwd>(A, rhs, x0, 200); st = "; real threads, double: " + std::to_string(d) + "/200 runs differ from the serial sweep"; }
         if (r.ok) r.fail(pre + why + " (these values hide it under the three adversarial orders)" + st); else r.why += st;
         out = a1;
     } else {
@@ -253,7 +256,7 @@ template <bool fwd> static Result do_sched_gs(long variant, long nt, const Mat &
     r.nontrivial = A.n >= 2 && A.col.size() > (size_t)A.n;
     r.tag(fwd ? "gs_fwd" : "gs_bwd").tag("nt" + std::to_string(nt)).tag(structurally_symmetric(A) ? "symm" : "nonsymm");
     if (T.nt && T.tasks[0].size() > 1) r.tag("multilevel");
-    (void)variant;
+    if (variant) r.tag("asis_model");
     return r;
 }
 
@@ -340,7 +343,7 @@ template <bool fwd, int tri> static Result do_exh(long nt, long n, long lo, long
         if (!why.empty() || !e1 || !e2 || !e3) {
             ++bad;
             if (r.ok) {
-                Line l; l << (tri == 0 ? "sched_gs" : "sched_ilu"); if (tri == 0) l << 0L; l << fwd << nt << A; if (tri == 0) l << rhs; else l << D; l << x0;
+                Line l; l << (tri == 0 ? "sched_gs" : "sched_ilu"); l << fwd << nt << A; if (tri == 0) l << rhs; else l << D; l << x0;
                 r.fail(std::string(tri == 0 ? "gauss_seidel parallel_sweep" : "ilu_solve sptr_solve") + (fwd ? "<forward/lower>" : "<backward/upper>") + " nt=" + std::to_string(nt) +
                        " pattern code " + std::to_string(code) + ": " + (why.empty() ? std::string("schedule differs from serial") : why) +
                        (!e1 ? "; reverse-thread schedule " + sched_str(T, s1) + " differs from the serial sweep" : "") +
@@ -366,9 +369,9 @@ static Result execute(const Toks &t) {
     Cur c(t);
     const std::string &op = t[0];
     Result r;
-    if (op == "sched_gs") {
-        long variant = c.nat(), fwd = c.nat(), nt = c.nat(); Mat A = c.mat(); auto rhs = c.vec(); auto x = c.vec(); c.expect_end();
-        check_nt(nt); check_square(A); if (variant < 0 || variant > 1 || fwd < 0 || fwd > 1) throw bad_input("flag");
+    if (op == "sched_gs" || op == "sched_gs_asis") {
+        long variant = op == "sched_gs" ? 0 : 1, fwd = c.nat(), nt = c.nat(); Mat A = c.mat(); auto rhs = c.vec(); auto x = c.vec(); c.expect_end();
+        check_nt(nt); check_square(A); if (fwd < 0 || fwd > 1) throw bad_input("flag");
         if ((long)rhs.size() != A.n || (long)x.size() != A.n) throw bad_input("shape");
         r = fwd ? do_sched_gs<true>(variant, nt, A, rhs, x) : do_sched_gs<false>(variant, nt, A, rhs, x);
     } else if (op == "sched_ilu") {
@@ -435,10 +438,10 @@ static Result execute(const Toks &t) {
         if (!same) r.fail("ilu0 apply with " + std::to_string(nt) + " threads differs from 1 thread");
         r.out = same ? "same" : "differs";
         r.nontrivial = a.first && A.col.size() > (size_t)A.n; r.tag("ilu0").tag("nt" + std::to_string(nt)); if (!a.first) r.tag("zero_pivot");
-    } else if (op == "sched_exh" || op == "sched_exh_ilu") {
-        bool gs = op == "sched_exh";
-        long variant = gs ? c.nat() : 0, fwd = c.nat(), nt = c.nat(), n = c.nat(), lo = c.nat(), hi = c.nat(); c.expect_end();
-        check_nt(nt); if (variant < 0 || variant > 1 || fwd < 0 || fwd > 1 || n < 0 || n > 6) throw bad_input("flag");
+    } else if (op == "sched_exh" || op == "sched_exh_asis" || op == "sched_exh_ilu") {
+        bool gs = op != "sched_exh_ilu";
+        long fwd = c.nat(), nt = c.nat(), n = c.nat(), lo = c.nat(), hi = c.nat(); c.expect_end();
+        check_nt(nt); if (fwd < 0 || fwd > 1 || n < 0 || n > 6) throw bad_input("flag");
         long bits = exh_bits(n, gs ? 0 : 1); if (bits > 30 || lo < 0 || hi < lo || hi > (1L << bits)) throw bad_input("range");
         if (gs) r = fwd ? do_exh<true, 0>(nt, n, lo, hi) : do_exh<false, 0>(nt, n, lo, hi);
         else r = fwd ? do_exh<true, 1>(nt, n, lo, hi) : do_exh<false, 2>(nt, n, lo, hi);
@@ -505,6 +508,12 @@ static Mat gen_tri(Rng &rng, long n, bool lower, int dens) {
 
 static void generate(Rng &rng, const Opts &o, std::vector<std::string> &lines) {
     const long variant = probe_variant();
+    // Gauss-Seidel ops: always against the main (repaired) model; on a tree that still has the unpatched level loop
+    // additionally against the as-is model
+    auto gs_op = [&](const char *name, const std::string &rest) {
+        lines.push_back(std::string(name) + " " + rest);
+        if (variant == 1) lines.push_back(std::string(name) + "_asis " + rest);
+    };
     static const std::vector<long> NTS = { 4, 5, 8, 16, 17, 24, 32 };
     static const std::vector<long> NTS_ALL = { 1, 2, 3, 4, 5, 8, 16, 17, 24, 32 };
     const bool th = o.thorough();
@@ -513,12 +522,12 @@ static void generate(Rng &rng, const Opts &o, std::vector<std::string> &lines) {
     for (long fwd = 0; fwd < 2; ++fwd) {
         if (th) {
             const long shards = 16, tot = 1L << 20;
-            for (long nt : std::vector<long>{4, 5}) for (long s = 0; s < shards; ++s) { Line l; l << "sched_exh" << variant << fwd << nt << 5L << s * (tot / shards) << (s + 1) * (tot / shards); lines.push_back(l.get()); }
-            for (long nt : NTS) { Line l; l << "sched_exh" << variant << fwd << nt << 4L << 0L << (1L << 12); lines.push_back(l.get()); }
+            for (long nt : std::vector<long>{4, 5}) for (long s = 0; s < shards; ++s) { Line l; l << fwd << nt << 5L << s * (tot / shards) << (s + 1) * (tot / shards); gs_op("sched_exh", l.get()); }
+            for (long nt : NTS) { Line l; l << fwd << nt << 4L << 0L << (1L << 12); gs_op("sched_exh", l.get()); }
             for (long nt : std::vector<long>{4, 5, 17}) { Line l; l << "sched_exh_ilu" << fwd << nt << 6L << 0L << (1L << 15); lines.push_back(l.get()); }
         } else {
-            for (long nt : std::vector<long>{8, 17}) { Line l; l << "sched_exh" << variant << fwd << nt << 4L << 0L << (1L << 12); lines.push_back(l.get()); }
-            { long s = rng.range(0, 254); Line l; l << "sched_exh" << variant << fwd << (fwd ? 4L : 5L) << 5L << (s << 12) << ((s + 1) << 12); lines.push_back(l.get()); }
+            for (long nt : std::vector<long>{4, 5, 8, 17}) { Line l; l << fwd << nt << 4L << 0L << (1L << 12); gs_op("sched_exh", l.get()); }
+            { long s = rng.range(0, 254); Line l; l << fwd << (fwd ? 4L : 5L) << 5L << (s << 12) << ((s + 1) << 12); gs_op("sched_exh", l.get()); }
             { Line l; l << "sched_exh_ilu" << fwd << 5L << 6L << 0L << (1L << 15); lines.push_back(l.get()); }
         }
     }
@@ -528,11 +537,11 @@ static void generate(Rng &rng, const Opts &o, std::vector<std::string> &lines) {
     // 1. exhaustive patterns: single-case ops up to 3x3 for every thread count, batches for 4x4 (quick) / 5x5 (thorough)
     for (long n = 0; n <= 3; ++n) for (long code = 0; code < (1L << exh_bits(n, 0)); ++code) for (long fwd = 0; fwd < 2; ++fwd) {
         Mat A = exh_pattern(n, code, 0); std::vector<Q> rhs(n), x(n); for (long i = 0; i < n; ++i) { rhs[i] = Q(i + 1); x[i] = Q((i * 5) % 7 - 3); }
-        Line l; l << "sched_gs" << variant << fwd << ((n == 3 && !th) ? rng.pick(NTS) : NTS[(code + fwd) % NTS.size()]) << A << rhs << x; lines.push_back(l.get());
+        Line l; l << fwd << ((n == 3 && !th) ? rng.pick(NTS) : NTS[(code + fwd) % NTS.size()]) << A << rhs << x; gs_op("sched_gs", l.get());
     }
     for (long fwd = 0; fwd < 2; ++fwd) {
-        for (long nt : std::vector<long>{4, 5}) { Line l; l << "sched_exh" << variant << fwd << nt << 4L << 0L << (1L << 12); lines.push_back(l.get()); }
-        { Line l; l << "sched_exh" << variant << fwd << rng.pick(NTS) << 3L << 0L << (1L << 6); lines.push_back(l.get()); }
+        { Line l; l << fwd << (fwd ? 4L : 5L) << 4L << 0L << (1L << 12); gs_op("sched_exh", l.get()); }      // (the other thread counts: h_sched_exh)
+        { Line l; l << fwd << rng.pick(NTS) << 3L << 0L << (1L << 6); gs_op("sched_exh", l.get()); }
         for (long nt : std::vector<long>{4, 8}) { Line l; l << "sched_exh_ilu" << fwd << nt << 5L << 0L << (1L << 10); lines.push_back(l.get()); }
     }
     // 2. random cases
@@ -543,7 +552,8 @@ static void generate(Rng &rng, const Opts &o, std::vector<std::string> &lines) {
         Line l;
         if (which <= 2) {
             Mat A = gen_gs_matrix(rng, n, (int)rng.range(0, 4));
-            l << "sched_gs" << variant << rng.range(0, 1) << rng.pick(NTS) << A << gen_vec(rng, A.n) << gen_vec(rng, A.n);
+            l << rng.range(0, 1) << rng.pick(NTS) << A << gen_vec(rng, A.n) << gen_vec(rng, A.n);
+            gs_op("sched_gs", l.get()); continue;
         } else if (which <= 4) {
             long lower = rng.range(0, 1); Mat A = gen_tri(rng, n, lower, (int)rng.range(0, 50));
             std::vector<Q> D(n); for (auto &d : D) d = rng.rat_nz(5);
@@ -565,13 +575,13 @@ static void generate(Rng &rng, const Opts &o, std::vector<std::string> &lines) {
         lines.push_back(l.get());
     }
     // 3. malformed stream: both sides must answer bad-input
-    lines.push_back("sched_gs 0 1 4 2 2 1 0 1 1 5 1 2 1 1 2 0 0");          // column 5 in a 2x2 matrix
-    lines.push_back("sched_gs 0 1 0 1 1 1 0 1 1 1 1 0");                      // nt = 0
-    lines.push_back("sched_gs 0 1 4 2 2 1 0 1 1 1 1 1 1 2 0 0");             // rhs too short
+    lines.push_back("sched_gs 1 4 2 2 1 0 1 1 5 1 2 1 1 2 0 0");            // column 5 in a 2x2 matrix
+    lines.push_back("sched_gs 1 0 1 1 1 0 1 1 1 1 0");                        // nt = 0
+    lines.push_back("sched_gs 1 4 2 2 1 0 1 1 1 1 1 1 2 0 0");               // rhs too short
     lines.push_back("sched_ilu 1 4 2 2 1 1 1 0 2 1 1 2 0 0");                // entry above the diagonal in L
     lines.push_back("ilu_solve 4 2 2 0 1 0 1 2 2 1 0 1 0 2 1 1 2 0 0");      // U has an entry below the diagonal
     lines.push_back("gs_apply 4 3 1 1 1 0 1 1 1 1 0");                        // which = 3
-    lines.push_back("sched_exh 0 1 4 4 0 5000");                              // range beyond 2^12
+    lines.push_back("sched_exh 1 4 4 0 5000");                              // range beyond 2^12
 }
 
 VH_MAIN(generate, execute)
